@@ -23,6 +23,7 @@ const (
 	kfOwnDelete = "K13b-own-delete-invisible-to-insert"
 	kfReported  = "K13c-rolled-back-tx-reported-as-committed"
 	kfRODDL     = "K13d-failed-ddl-in-read-only-tx-leaks-into-catalog-cache"
+	kfColdDDL   = "K13g-rolled-back-add-column-stays-in-index-mapper"
 )
 
 type gen struct {
